@@ -121,7 +121,7 @@ class C17(runner.Check):
 		ow = r.choice([w, w - 1, w // 2, w // 2 + 1, 10])
 		use_bw = r.chance(0.45)
 		chroms = []
-		for i in range(r.randint(2, 5)):
+		for i in range(r.randint(1, 5)):
 			n_tiles = r.randint(2, 40 if w <= 200 else 14)
 			L = n_tiles * w + r.randint(0, w - 1)
 			blocks, tot = [], 0
@@ -174,6 +174,8 @@ class C17(runner.Check):
 				s = r.randint(0, L - 1)
 				e = min(L, s + r.randint(w, 3 * w))
 			loci.append([c["name"], int(s), int(max(s, e))])
+			if r.chance(0.05):
+				loci.append([c["name"], int(s), int(max(s, e))])     # duplicate input locus
 		kw = {"in_window": w, "out_window": ow,
 			"max_n_perc": r.choice([0.0, 0.05, 0.1, 0.1, 0.3, 0.5]),
 			"gc_bin_width": r.choice([0.01, 0.02, 0.02, 0.05, 0.1]),
@@ -196,7 +198,8 @@ class C17(runner.Check):
 				{"pool": "loky", "n_jobs": nj} for nj in (1, 2, 3)]
 		if leg == "faulty":
 			f = S("faults")
-			kind = f.choice(["pool.fail", "env.missing_chrom"] if use_bw else ["pool.fail"])
+			kind = f.choice(["pool.fail", "env.missing_chrom"] if (use_bw and len(chroms) > 1)
+				else ["pool.fail"])
 			case["fault"] = {"kind": kind, "pick": f.randint(0, 10)}
 		return case
 
